@@ -137,7 +137,7 @@ def eval_twin(case):
             continue
         if len(S) > 250:
             break   # values only grow from here (self-replacement squares the length); the library's replace is quadratic
-        if name == 'replace' and op['new'].get('k') in ('self', 'prog') and S.base_str.count(op['old']) > 12:
+        if name == 'replace' and op['new'].get('k') in ('self', 'prog') and (not isinstance(op['old'], dict)) and S.base_str.count(op['old']) > 12:
             continue
         op = dict(op)
         op['ip'] = False
